@@ -142,7 +142,9 @@ def make_case(prop, seed, i, tier):
             specs.append(G.gen_random(rng, G.profile(facility_rich=rng.random() < 0.3, max_time=60)))
         return dict(prop=prop, i=i, kind="fresh-process", specs=specs, hashseed=rng.randrange(1, 10 ** 6))
     r = rng.random()
-    if r < 0.25:
+    if r > 0.93:
+        spec = G.gen_scale(rng)        # beyond the usual sizes (long runs, wide fan-in, big teams, ...)
+    elif r < 0.25:
         spec = G.shape_chains(rng, 1)[0]
         for t in spec["tasks"]:
             if rng.random() < 0.25:
